@@ -22,6 +22,7 @@ package zap
 
 import (
 	"fmt"
+	"reflect"
 	"time"
 
 	"go.uber.org/zap/zapcore"
@@ -221,8 +222,28 @@ type stringers[T fmt.Stringer] []T
 
 func (os stringers[T]) MarshalLogArray(arr zapcore.ArrayEncoder) error {
 	for _, o := range os {
-		arr.AppendString(o.String())
+		if err := appendStringer(arr, o); err != nil {
+			return err
+		}
 	}
+	return nil
+}
+
+// appendStringer appends o.String() to the array. Like the encoding of a
+// Stringer field, it captures panics from String(): a nil pointer is rendered
+// as "<nil>", any other panic is reported as an error.
+func appendStringer(arr zapcore.ArrayEncoder, o fmt.Stringer) (retErr error) {
+	defer func() {
+		if err := recover(); err != nil {
+			if v := reflect.ValueOf(o); v.Kind() == reflect.Ptr && v.IsNil() {
+				arr.AppendString("<nil>")
+				return
+			}
+			retErr = fmt.Errorf("PANIC=%v", err)
+		}
+	}()
+
+	arr.AppendString(o.String())
 	return nil
 }
 
